@@ -11,10 +11,10 @@ BASES = ["ef0", "ef6", "dsgc", "dsgi", "gath", "ef1"]
 NAME_ID = {"X": 1, "Y": 2, "LX": 3, "Z": 4, "Xrel": 1}
 COPY_VARIANTS = ["copy", "squeeze", "transpose", "insert_dimension", "subspace_all", "subspace_part",
                  "apply_masking", "uncompress", "deepcopy"]
-TOUCH_VARIANTS = ["to_memory", "cons_to_memory", "assign", "array", "text", "equals"]
+TOUCH_VARIANTS = ["to_memory", "cons_to_memory", "assign", "array", "text", "equals", "inner_to_memory", "inner_to_memory"]
 EARLY_FAULTS = ["hdf5_chunks", "fmt", "var_attrs", "file_desc"]
 LATE_FAULTS = ["endian", "compress99", "lsd", "datatype"]
-N_HARMLESS = 18
+N_HARMLESS = 17
 
 
 # ---- Gallina printers ------------------------------------------------------------
@@ -68,7 +68,7 @@ def g_op(o):
     if k == "copy":
         return f"(OCopy {gnat(o[1])})"
     if k == "get_domain":
-        return f"(OGetDomain {gnat(o[1])})"
+        return f"(OGetDomain {gnat(o[1])} {glist(o[2], gstr)})"
     if k == "field_source":
         return f"(OFieldSource {gnat(o[1])})"
     if k == "convert":
@@ -228,6 +228,19 @@ CORPUS = [
     {"bases": ["ef0", "ef0"], "read_via": "direct", "fam": "corpus-F10c",
      "ops": [{"op": "set_bounds_data", "dst": 1, "src": 0, "j": 0, "j2": 0, "sel": "bounds", "how": "direct"}],
      "write": {"regs": [1], "target": "X", "mode": "w", "overwrite": True, "fault": None}},
+    # F10c: a transplanted ragged array whose compressed data are in memory and whose count variable is not
+    {"bases": ["dsgc", "ef0"], "read_via": "direct", "fam": "corpus-F10c",
+     "ops": [{"op": "new_field"}, {"op": "set_data", "dst": 2, "src": 0, "sel": "field", "how": "direct"},
+             {"op": "touch", "i": 2, "variant": "inner_to_memory"}],
+     "write": {"regs": [2], "target": "X", "mode": "w", "overwrite": True, "fault": None}},
+    {"bases": ["gath", "dsgi"], "read_via": "direct", "fam": "corpus-F10c",
+     "ops": [{"op": "new_field"}, {"op": "set_data", "dst": 2, "src": 0, "sel": "field", "how": "copy"},
+             {"op": "touch", "i": 2, "variant": "inner_to_memory"}, {"op": "copy", "i": 2, "variant": "copy"}],
+     "write": {"regs": [3], "target": "LX", "mode": "w", "overwrite": True, "fault": None}},
+    {"bases": ["dsgi", "dsgi"], "read_via": "direct", "fam": "corpus-F10c",
+     "ops": [{"op": "new_field"}, {"op": "set_data", "dst": 2, "src": 1, "sel": "field", "how": "direct"},
+             {"op": "touch", "i": 2, "variant": "inner_to_memory"}],
+     "write": {"regs": [2], "target": "Y", "mode": "w", "overwrite": True, "fault": None}},
     # the direct case of test_write_filename
     {"bases": ["ef1", "gath"], "read_via": "direct", "fam": "corpus-direct",
      "ops": [], "write": {"regs": [0], "target": "X", "mode": "w", "overwrite": True, "fault": None}},
@@ -246,7 +259,7 @@ def gen_cases(rng, tier):
     cases = [dict(c) for c in CORPUS]
     # (a) transplants: data of X (field / construct / bounds / ring, bare or re-wrapped) moved
     #     into a fresh field or into the field read from Y, a few derivations either side
-    for _ in range(900 if thorough else 220):
+    for _ in range(500 if thorough else 200):
         pre, n = rand_history(rng, 3, 0.0)
         dst_new = rng.random() < 0.5
         ops = list(pre)
@@ -284,13 +297,13 @@ def gen_cases(rng, tier):
                       "read_via": rng.choice(["direct", "direct", "direct", "symlink", "relative"]),
                       "ops": ops, "write": w, "fam": "transplant"})
     # (b) random histories
-    for _ in range(2600 if thorough else 520):
+    for _ in range(1300 if thorough else 400):
         ops, n = rand_history(rng, 8, 0.12)
         cases.append({"bases": [rng.choice(BASES), rng.choice(BASES)],
                       "read_via": rng.choice(["direct", "direct", "direct", "symlink", "relative"]),
                       "ops": ops, "write": rand_write(rng, n), "fam": "history"})
     # (c) options: little or no history, the whole option space, every base kind
-    for _ in range(1200 if thorough else 300):
+    for _ in range(600 if thorough else 200):
         ops, n = rand_history(rng, 1, 0.0)
         w = rand_write(rng, n)
         w["harmless"] = rng.randrange(N_HARMLESS)
@@ -301,6 +314,8 @@ def gen_cases(rng, tier):
                       "ops": ops, "write": w, "fam": "options"})
     for i, c in enumerate(cases):
         c["id"] = i
+        if c["ops"] and c["ops"][-1]["op"] == "get_domain":
+            c["ops"][-1] = dict(c["ops"][-1], last=True)
     return cases
 
 
@@ -424,7 +439,7 @@ def run(chk, model_ok):
             continue
         if "crash" in r:
             stats["crash"] += 1
-            chk.fail("property", "worker-crash:" + c["write"]["mode"],
+            chk.fail("property", "worker-crash:" + ("append" if c["write"]["mode"] in ("a", "r+") else c["write"]["mode"]),
                      f"the interpreter died (signal {r['crash']}) during the case", {"input": {"case": c}})
             continue
         if "driver_error" in r:
